@@ -1,14 +1,14 @@
 #!/bin/sh
 # Offline warm-up: compile the harness and every check package against /repo's current tree.
-set -e
+# (Each ./check run rebuilds its own package anyway; this only warms the build cache.)
 cd "$(dirname "$0")"
 export GOFLAGS=-mod=mod GOPROXY=off GOSUMDB=off GOTOOLCHAIN=local
 mkdir -p .bin .run evidence
-go build ./internal/...
+go build ./internal/... || { echo "setup: harness library does not build"; exit 1; }
 for d in checks/*/; do
   id=$(basename "$d")
   extra=""
   [ "$id" = "c10" ] && extra="-race"
-  go test -c -tags verif -vet=off $extra -o ".bin/$id.test" "./checks/$id"
+  go test -c -tags verif -vet=off $extra -o ".bin/$id.test" "./checks/$id" || echo "setup: warning: $id does not build yet"
 done
 echo "setup ok"
